@@ -48,9 +48,12 @@ type intRig struct {
 	decoy  *machine.Machine
 }
 
-func newIntRig() *intRig {
+func newIntRig() *intRig { return newIntRigOpt(false) }
+
+// newIntRigOpt: debug = the emulator's CPU trace (Config.DebugCPU) on; callers silence stdout meanwhile
+func newIntRigOpt(debug bool) *intRig {
 	r := &intRig{}
-	r.m = machine.New(intROM, machine.Options{})
+	r.m = machine.New(intROM, machine.Options{DebugCPU: debug})
 	r.m.QuietLCD()
 	// a second emulator created afterwards and never stepped (as in the instruction rig): dispatch sequences, tables or
 	// handlers shared between CPU instances show in the older one
@@ -376,6 +379,37 @@ func intGen(c *Ctx) {
 			}
 		}
 	}
+	if c.Want("hdbg") {
+		// HALT scenarios (all three pending situations, every source, a few following opcodes) with the emulator's CPU
+		// trace switched on: printing must not move the CPU
+		rng := c.Rand(410)
+		stdout := os.Stdout
+		if null, err := os.OpenFile(os.DevNull, os.O_WRONLY, 0); err == nil {
+			os.Stdout = null
+			drig := newIntRigOpt(true)
+			for ime := 0; ime < 2; ime++ {
+				for bit := 0; bit < 5; bit++ {
+					for _, pend := range []int{0, 1} {
+						for _, next := range [][]int{{0x04, 0x0c}, {0x3e, 0x14, 0x04}, {0x00, 0x04}, {0x34, 0x04}} {
+							s := &intScript{Regs: intRegs(rng), Code: append([]int{0x76}, next...), IME: ime, IE: 1 << uint(bit), IF: pend << uint(bit), Units: 8}
+							if pend == 0 {
+								s.Raises = [][2]int{{2 + rng.Intn(5), bit}}
+							}
+							s.ID = fmt.Sprintf("int-hdbg-%d", n)
+							n++
+							w.Put(drig.run(s))
+							if drig.broken {
+								drig = newIntRigOpt(true)
+							}
+						}
+					}
+				}
+			}
+			os.Stdout = stdout
+			null.Close()
+			rig = newIntRig() // the bus observer belongs to the last rig built
+		}
+	}
 	if c.Want("halt2") {
 		// two HALTs in one program: the first with the master enable set while a request X is raised but not enabled
 		// (woken by Y, dispatched, RETI), the second with the enable clear after IF was cleared and X enabled, woken by X -
@@ -659,6 +693,20 @@ func intRerun(c *Ctx) {
 		}
 		for a := sc.Regs[9]; a <= max; a++ {
 			sc.Code = append(sc.Code, code[a])
+		}
+		if strings.HasPrefix(s.ID, "int-hdbg-") {
+			// recorded with the CPU trace on: the same again
+			stdout := os.Stdout
+			if null, err := os.OpenFile(os.DevNull, os.O_WRONLY, 0); err == nil {
+				os.Stdout = null
+				drig := newIntRigOpt(true)
+				out := drig.run(sc)
+				os.Stdout = stdout
+				null.Close()
+				w.Put(out)
+				rig = newIntRig()
+				continue
+			}
 		}
 		w.Put(rig.run(sc))
 	}
